@@ -37,17 +37,26 @@ def parse_races(text):
         if len(accesses) < 2:
             continue
         tops = []
+        direct = []
         for a in accesses[:2]:
             # the innermost frame that is gengine's own code (not reflect / runtime / the harness)
             top = None
+            direct.append(bool(a["frames"]) and a["frames"][0][0].startswith(GENGINE))
             for fn, fl in a["frames"]:
                 if fn.startswith(GENGINE) and "/verif" not in fl:
                     top = (a["kind"], fn[len(GENGINE):], os.path.basename(fl))
                     break
-                if fn.startswith(("reflect.", "runtime.", "sync.", "internal/")):
+                if fn.startswith(("reflect.", "runtime.", "sync.", "sync/", "internal/")):
                     continue
                 break          # user / harness code touches the memory itself: not gengine's state
             tops.append(top)
+        for i in (0, 1):
+            # an access made through sync/atomic is reported without its caller (the stack is only the atomic
+            # function itself).  When the OTHER access is gengine's own statement (innermost frame in gengine, not
+            # reflection into user data), the memory is gengine's own, and nothing outside gengine can address it.
+            fr = accesses[i]["frames"]
+            if tops[i] is None and fr and all(fn.startswith("sync/atomic.") for fn, _ in fr) and tops[1 - i] and direct[1 - i]:
+                tops[i] = (accesses[i]["kind"], fr[0][0], "(no caller frame)")
         if tops[0] and tops[1]:
             out.append(tops[0] + tops[1])
     return out
@@ -173,7 +182,7 @@ def check_c19(run):
             r = P.call_for(rng.choice(meths), ["k1", "k2", "k3", "k4"], 4)
             r.update(q=qn + 1)
             reqs.append(r)
-        cold.append({"id": 7000000 + i, "kind": "cold", "min": mn, "max": mx, "silent": True, "rules": [], "script": [{"op": "burst", "reqs": reqs}]})
+        cold.append({"id": 7000000 + i, "kind": "cold", "min": mn, "max": mx, "silent": True, "rules": [], "script": [{"op": "burst", "reqs": reqs, "flips": 300 if i % 3 == 0 else 0}]})
     binary = run.go_build("pooldrv", race=True)
     sp = os.path.join(run.scratch, "sessions-cold.ndjson")
     tp = os.path.join(run.scratch, "traces-cold.ndjson")
